@@ -185,6 +185,11 @@ class Prop(PropBase):
             for lab, t in (("start", st), ("stop", sp), ("before", st - 0.5 * dt), ("in", st + 0.25 * dt),
                            ("last", sp - 0.25 * dt), ("after", sp + 0.5 * dt)):
                 probes.append([lab, X.rat(X.time_offset_s(t, tref)), bool(z.contains(t))])
+            # the same instants given on another time scale, and as an array
+            inner = [st - 0.5 * dt, st + 0.25 * dt, sp - 0.25 * dt, sp + 0.5 * dt]
+            out["contains_forms_ok"] = bool(all(bool(z.contains(t.tai)) == bool(z.contains(t)) and bool(z.contains(t.tt)) == bool(z.contains(t))
+                                                and bool(t.tai in z) == bool(z.contains(t)) for t in inner)
+                                            and [bool(b) for b in z.contains(Time(inner))] == [bool(z.contains(t)) for t in inner])
         elif z.start_time is None:
             probes.append(["nostart", "0", bool(z.contains(Time(sigs.T0S[0])))])
         else:
@@ -352,6 +357,8 @@ class Prop(PropBase):
         if "prov" in c and n > 0:
             if not c["prov_ok"] or c["prov"][0] != first or (n > 1 and c["prov"][1] - c["prov"][0] != stride):
                 return f"retained samples {c['prov']} are not input samples {first}+k*{stride}"
+        if c.get("contains_forms_ok") is False:
+            return "contains() answers differently for the same instants given on the TAI/TT scale or as an array"
         for lab, t, got in c["contains"]:
             if lab in ("nostart", "empty-", "empty+", "empty0"):
                 want = False
